@@ -6,7 +6,8 @@ import ast
 from typing import Dict, Optional
 
 from rules import fwd as R_fwd
-from sa.astutil import call_name, guards_of, kwarg, parent_map, u
+from sa.astutil import call_name, guards_of, is_const, kwarg, names_in, parent_map, u
+from sa.inline import Inliner
 from sa.defuse import ReachingDefs
 from sa.model import AnalysisError, own_calls, own_nodes
 from sa.resolve import norm_name
@@ -104,11 +105,30 @@ def run(ctx: Ctx):
            serial_worker == parallel_worker and serial_arg == parallel_arg,
            f"serial branch applies {serial_worker}({serial_arg}), parallel branch {parallel_worker}({parallel_arg})",
            rel, it.line, sample=dict(serial=(serial_worker, serial_arg), parallel=(parallel_worker, parallel_arg)))
-    # both branches drop None results and nothing else
+    # both branches drop None results and nothing else: every `yield x` is reached only when x is not None (if-form or
+    # `if x is None: continue` form), under no other condition on x; a `yield from` is the recursive path dispatch only
     pm = parent_map(it.node)
-    filt = [u(n.test) for n in own_nodes(it.node) if isinstance(n, ast.If) and any(
-        isinstance(s, ast.Expr) and isinstance(s.value, ast.Yield) for s in n.body)]
-    col.ob("G13", "S2", f"{where}::same-filter-in-both-branches", len(filt) == 2 and len(set(filt)) == 1 and filt[0].endswith("is not None"),
+    filt = []
+    for n in own_nodes(it.node):
+        if isinstance(n, ast.YieldFrom):
+            if not (isinstance(n.value, ast.Call) and call_name(n.value) == "read_trn_iter"):
+                filt.append(f"yield from {u(n.value)[:40]} (unfiltered)")
+        elif isinstance(n, ast.Yield):
+            if not isinstance(n.value, ast.Name):
+                filt.append(f"yield {u(n.value)[:40]}")
+                continue
+            nm = n.value.id
+            conds = set()
+            for t, pol in guards_of(pm, n):
+                if nm not in names_in(t):
+                    continue
+                if isinstance(t, ast.Compare) and len(t.ops) == 1 and isinstance(t.left, ast.Name) and t.left.id == nm \
+                        and is_const(t.comparators[0], None) and isinstance(t.ops[0], (ast.Is, ast.IsNot)):
+                    conds.add("is not None" if isinstance(t.ops[0], ast.IsNot) == pol else "is None")
+                else:
+                    conds.add(("" if pol else "not ") + u(t))
+            filt.append("x " + " and ".join(sorted(conds)) if conds else "unfiltered")
+    col.ob("G13", "S2", f"{where}::same-filter-in-both-branches", len(filt) >= 2 and set(filt) == {"x is not None"},
            f"the serial and parallel branches filter results by {filt}", rel, it.line, sample=filt)
 
     # ---- S3 ctm field order: writer tuple == reader unpack ---------------------------------------------------
@@ -186,11 +206,20 @@ def run(ctx: Ctx):
     col.ob("G2", "S3", f"{rel}::ctm::utt2wc/wc2utt-orientation", okm,
            "writer must map utt_id -> (wfn, chan) and reader (wfn, chan) -> utt_id", rel, rdc.line)
     # mandated ordering: segments sorted before writing; reader sorts tokens by start
-    oks = any(isinstance(n, ast.Assign) and call_name(n.value) == "sorted" and u(n.value.args[0]) == u(n.targets[0])
-              for n in own_nodes(wr.node) if isinstance(n, ast.Assign) and isinstance(n.value, ast.Call)) or any(
-        isinstance(c.func, ast.Attribute) and c.func.attr == "sort" and not c.args and not c.keywords
-        and any(isinstance(l, ast.For) and u(l.iter) == u(c.func.value) and l.lineno > c.lineno for l in own_nodes(wr.node))
-        for c in own_calls(wr.node))
+    # (the loop that writes the lines iterates over the sorted segment list: `sorted(...)` in the expansion of its iterable, or an
+    # earlier argument-less `.sort()` of the list it iterates over)
+    inl_w = Inliner(wr.node)
+    oks = False
+    for l in own_nodes(wr.node):
+        if not (isinstance(l, ast.For) and any(isinstance(c.func, ast.Attribute) and c.func.attr == "write" for s_ in l.body for c in ast.walk(s_)
+                                                if isinstance(c, ast.Call))):
+            continue
+        ex = inl_w.expand(l.iter)
+        if isinstance(ex, ast.Call) and call_name(ex) == "sorted" and len(ex.args) == 1 and not ex.keywords:
+            oks = True
+        elif any(isinstance(c.func, ast.Attribute) and c.func.attr == "sort" and not c.args and not c.keywords
+                 and u(c.func.value) == u(l.iter) and c.lineno < l.lineno for c in own_calls(wr.node)):
+            oks = True
     col.ob("G13", "S3", f"{rel}::write_ctm::sorted-segments", oks, "ctm segments are not sorted before writing", rel, wr.line)
 
     # ---- S4 seconds <-> frames unit kinds ------------------------------------------------------------------------
@@ -198,6 +227,7 @@ def run(ctx: Ctx):
     k2t = pkg.func(f"{MOD}::token_to_transcript")
     FS = {"ms": 1, "frame": -1}
     n_units = 0
+    per_func = {}
     for f, src, dst in ((t2t, {"s": 1}, {"frame": 1}), (k2t, {"frame": 1}, {"s": 1})):
         pmf = parent_map(f.node)
         for n in own_nodes(f.node):
@@ -216,6 +246,7 @@ def run(ctx: Ctx):
                 continue
             names = [t.id for t in n.targets]
             n_units += 1
+            per_func[f.qualname] = per_func.get(f.qualname, 0) + 1
             env = {x.id: src for x in ast.walk(conv) if isinstance(x, ast.Name) and x.id != "frame_shift_ms"}
             env["frame_shift_ms"] = FS
             try:
@@ -227,7 +258,9 @@ def run(ctx: Ctx):
             col.ob("G14", "S4", f"{rel}::{f.qualname}::units({u(n.value)[:44]})", ok,
                    msg + " (seconds -> frames is 1000 * t // frame_shift_ms; frames -> seconds is f * frame_shift_ms / 1000)",
                    rel, n.lineno, sample=u(n))
-    col.floor("unit_conversion_sites", n_units, 5)
+    # (not vacuous: each direction has at least one conversion site; how many statements spell them is the author's choice)
+    col.floor("unit_conversion_sites", n_units, 2)
+    col.floor("unit_conversion_directions", len(per_func), 2)
     # rounding: start floors, end rounds half up, and a non-empty segment keeps at least one frame
     okmax = False
     for n in own_nodes(t2t.node):
@@ -428,6 +461,49 @@ def _format_constants_and_order(ctx: Ctx):
             f"{sorted(aggs)}: ") + "the tier must span min(start) .. max(end) over all entries whatever their order, else the written xmax "
            "is too small, trailing gap filling is wrong and a too-short end_time is accepted", rel, pos[0].lineno if pos else wt.line,
            sample=sorted(map(str, aggs)))
+    # (c) every number the TextGrid writer prints with a fixed number of decimals takes that number from `precision`: a literal
+    # digit count in one place (entries of one tier type, a bound) makes that part of the file ignore the option - times come back
+    # rounded to the literal's digits, and the tier-type inference (equal start and end AS PRINTED) disagrees with what is printed
+    pname = "precision"
+    if pname not in {p_.name for p_ in wt.params}:
+        raise AnalysisError("C11: write_textgrid has no `precision` parameter")
+    inl = Inliner(wt.node)
+    fixed, follows = [], 0
+    for n in own_nodes(wt.node):
+        spec = None
+        if isinstance(n, ast.FormattedValue) and n.format_spec is not None:
+            spec = n.format_spec
+            parts = [v for v in spec.values] if isinstance(spec, ast.JoinedStr) else [spec]
+            lit = "".join(v.value for v in parts if isinstance(v, ast.Constant) and isinstance(v.value, str))
+            refs = set()
+            for v in parts:
+                if isinstance(v, ast.FormattedValue):
+                    refs |= names_in(inl.expand(v.value))
+            is_float_spec = lit.rstrip().endswith(("f", "e", "g", "F", "E", "G")) or any(isinstance(v, ast.FormattedValue) for v in parts)
+            if not is_float_spec:
+                continue
+            if pname in refs:
+                follows += 1
+            elif any(ch.isdigit() for ch in lit.split(".")[-1]) and "." in lit:
+                fixed.append(n)
+        elif isinstance(n, ast.Call) and isinstance(n.func, ast.Attribute) and n.func.attr == "format" and isinstance(n.func.value, ast.Constant) \
+                and isinstance(n.func.value.value, str):
+            import re as _re
+            for m in _re.finditer(r"\{[^{}]*:([^{}]*(?:\{[^{}]*\}[^{}]*)*)\}", n.func.value.value):
+                sp = m.group(1)
+                if not sp.rstrip().endswith(("f", "e", "g")):
+                    continue
+                if "{" in sp:
+                    if any(pname in names_in(inl.expand(a)) for a in list(n.args) + [k.value for k in n.keywords]):
+                        follows += 1
+                elif "." in sp:
+                    fixed.append(n)
+    col.floor("textgrid_precision_formatted_values", follows, 3)
+    col.ob("G13", "S7", f"{rel}::write_textgrid::every-printed-time-uses-the-print-precision", not fixed,
+           (f"`{u(fixed[0])[:60]}` prints a number with a literal digit count while the rest of the file follows `precision`: with a "
+            f"different precision those values are rounded to the literal's digits (times not recovered to within the print precision) "
+            f"and the file is inconsistent with its own bounds and with the point-tier inference") if fixed else "", rel,
+           fixed[0].lineno if fixed else wt.line, sample=dict(follows=follows, fixed=len(fixed)))
 
 
 def _mutants():
@@ -437,6 +513,7 @@ def _mutants():
         M("unk-lookup-without-fallback", "_parsing.py", "if token2id is not None and unk in token2id:\n        unk = token2id[unk]", "if token2id is not None:\n        unk = token2id.get(unk)", "unknown-symbol-kept-when-it-is-not-a-key"),
         M("intervals-sorted-as-text", "_parsing.py", "for x in sorted(tier.simple_transcript, key=lambda x: float(x[0]))", "for x in sorted(tier.simple_transcript)", "records-sorted-by-numeric-time", 1),
         M("repaired:textgrid-path-forwards-point-tier", "_parsing.py", "return write_textgrid(transcript, tg, start_time, end_time, tier_name, precision=precision)", "return write_textgrid(transcript, tg, start_time, end_time, tier_name, point_tier, precision)", "", twin=True),
+        M("point-entries-three-decimals", "_parsing.py", "tg.write(f'{start:0.{precision}f}\\n\"{tok}\"\\n')", "tg.write(f'{start:0.3f}\\n\"{tok}\"\\n')", "every-printed-time-uses-the-print-precision"),
         M("root-alternates-not-drained", "_parsing.py", "transcript.append((alt_tree.tokens[0], -1, -1))\n                alt_tree.tokens = []", "transcript.append((alt_tree.tokens[0], -1, -1))", "emitted-accumulator-is-drained"),
         M("twin:drained-by-clear", "_parsing.py", "transcript.append((alt_tree.tokens[0], -1, -1))\n                alt_tree.tokens = []", "transcript.append((alt_tree.tokens[0], -1, -1))\n                alt_tree.tokens.clear()", "", twin=True),
         M("imap-unordered", P, "transcripts = pool.imap(_trn_line_to_transcript", "transcripts = pool.imap_unordered(_trn_line_to_transcript", "order-preserving"),
